@@ -33,11 +33,26 @@ EXPLANATION = __doc__
 COLLECTIONS = {"openpectus.lang.exec.tags:TagValueCollection", "openpectus.lang.exec.tags:TagCollection",
                "openpectus.lang.exec.commands:CommandCollection"}
 # (function short name, call text) -> reason; sites whose key cannot be blank for a reason outside the function
+# The reason holds only for the listed sources of the key: the entry applies while every definition of the key local is one of
+# them (the node parameter spelled `node`).
 JUSTIFIED_BLANK = {
     ("CommandCheckAnalyzer.check_command_node", "self.commands.has(<local>)"):
-        "instruction_name is non-empty for every node class except ErrorInstructionNode, for which the whole non-blank "
-        "line is adopted as name (blank lines parse to BlankNode) - confirmed by exhaustive probing of short lines",
+        ("instruction_name is non-empty for every node class except ErrorInstructionNode, for which the whole non-blank "
+         "line is adopted as name (blank lines parse to BlankNode) - confirmed by exhaustive probing of short lines",
+         {"node.instruction_name", "node.line"}),
 }
+
+
+def _justified_blank(f, x) -> bool:
+    from ..util import local_all_defs, norm_node
+    ent = JUSTIFIED_BLANK.get((f.short, canon_text(x, f)))
+    if ent is None:
+        return False
+    key = x.args[0]
+    if not isinstance(key, ast.Name):
+        return norm_node(key, f) in ent[1]
+    defs = local_all_defs(f).get(key.id, [])
+    return bool(defs) and all(norm_node(d, f) in ent[1] for d in defs)
 
 
 def _is_error_report(n) -> bool:
@@ -138,7 +153,7 @@ def run(ctx) -> None:
                 inst = f"{f.short}: {norm(x)} key not blank"
                 if blank_guard:
                     ctx.ok("R19d", inst)
-                elif (f.short, canon_text(x, f)) in JUSTIFIED_BLANK:
+                elif _justified_blank(f, x):
                     ctx.ok("R19d", inst + " (justified)", trivial=True)
                 else:
                     ctx.fail("R19d", f, x, inst, f"{coll}.{call_attr(x)}({key}) raises ValueError for a None/blank name and no "
